@@ -57,8 +57,8 @@ def check_linear(case, ctx):
     ctx.close('k0uk == k0[free, :num0]', np.asarray(cc.k0uk), K0[np.ix_(keep, np.arange(num0))], 0., bucket=name + '.k0uk.partition',
               scale=np.max(np.abs(K0)))
     # positive semi-definite
-    ev = np.linalg.eigvalsh((Kuu + Kuu.T) / 2.)
-    ctx.metric('psd.neg/max[%s]' % model, max(0., -ev[0] / ev[-1]))
+    ev = np.linalg.eigvalsh((Kuu + Kuu.T) / 2.) if Kuu.shape[0] else np.array([0.])      # (1x1x1 single-harmonic model, all prescribed)
+    ctx.metric('psd.neg/max[%s]' % model, max(0., -ev[0] / (ev[-1] or 1.)))
     if ev[0] < -1e-9 * ev[-1]:
         ctx.known(R15['psd'] + ':' + model + (':cone' if case['alphadeg'] else ':cyl'), name + '.k0uu.not-psd',
                   'k0uu min eigenvalue %.3e (max %.3e)' % (ev[0], ev[-1]))
